@@ -11,7 +11,13 @@
      sub_chan s sid         the channel of the subscription named sid: subs[sid] = rid, requests[rid] = KSub _ ch _
      pending_msgs s         the messages on their way to the send task (queue, then blocked senders)
      is_notif, notif_step   subscription / close / plain notifications and their effect on the state
-     run_frames s frs       the read task handling the frames frs one after the other  *)
+     run_frames s frs       the read task handling the frames frs one after the other
+     ungated s              gated = false, dead = false, dying = None, sendfail = false, busy = false: nothing blocks or
+                            ends the send task
+     frame s q w u          s with queue := q, waiting := w, unsubw := u (handle_front neither reads nor writes them)
+     process s msgs         handle_front folded over msgs: final state and the concatenated outputs
+     marks tags u           unsubw after the blocked senders with these tags were admitted to the queue
+     wires_of o             the frames written among the outputs o  *)
 From Coq Require Import List NArith ZArith Bool.
 From JV Require Import Base.Bytes Base.Dec Model.Wire Model.ClientMgr Proofs.ClientMgrC05.
 Import ListNotations.
@@ -251,6 +257,79 @@ Theorem C05_next_notification_after_drop : forall s sid p ch c,
   option_map c_buf (chan_of (sub_deliver s sid p) ch) = Some (c_buf c).
 Proof. exact next_notification_after_drop. Qed.
 Print Assumptions C05_next_notification_after_drop.
+
+(* ------------------------------------------------------------------ the send task consumes what is queued *)
+
+(* when nothing blocks it, the send task handles EVERY queued and blocked message, in order (state and outputs are the
+   fold of handle_front over queue ++ blocked senders), and ends with an empty inbox *)
+Theorem C05_drain_ungated : forall fuel s,
+  ungated s -> (0 < qcap s)%nat -> (length (pending_msgs s) < fuel)%nat ->
+  drain fuel s =
+  (frame (fst (process s (pending_msgs s))) [] [] (marks (map snd (waiting s)) (unsubw s)),
+   snd (process s (pending_msgs s))).
+Proof. exact drain_ungated. Qed.
+Print Assumptions C05_drain_ungated.
+
+(* hence `settle` (run after every event, with exactly that fuel) is: handle everything pending, then complete the
+   unsubscribe() futures that are done; the five flags and the capacity are preserved *)
+Theorem C05_settle_ungated : forall s, ungated s -> (0 < qcap s)%nat ->
+  let P := process s (pending_msgs s) in
+  let D := frame (fst P) [] [] (marks (map snd (waiting s)) (unsubw s)) in
+  settle s = (fst (finish_unsubs D), snd P ++ snd (finish_unsubs D)) /\
+  ungated D /\ qcap D = qcap s.
+Proof. exact settle_ungated. Qed.
+Print Assumptions C05_settle_ungated.
+
+Theorem C05_settle_quiescent : forall s, ungated s -> (0 < qcap s)%nat ->
+  queue (fst (settle s)) = [] /\ waiting (fst (settle s)) = [] /\ ungated (fst (settle s)) /\
+  qcap (fst (settle s)) = qcap s.
+Proof. exact settle_quiescent. Qed.
+Print Assumptions C05_settle_quiescent.
+
+(* a push for an active subscription that its channel refuses (lagged, full, or receiver gone), arriving in a state
+   whose send task is idle: within that very step exactly one frame is written, the unsubscribe request naming sid, the
+   subscription is forgotten, and the inbox is empty again *)
+Theorem C05_lag_unsubscribes_exactly_once : forall s raw me sid p rid u ch um c,
+  ungated s -> (0 < qcap s)%nat -> queue s = [] -> waiting s = [] ->
+  classify_frame raw = FSingle (ISubNotif me sid p) ->
+  alookup subid_eqb sid (subs (m s)) = Some rid -> req_lookup rid (m s) = Some (KSub u ch um) ->
+  chan_of s ch = Some c -> snd (chan_send c p) <> SentOk ->
+  let r := fst (step s (Back raw)) in
+  wires_of (snd r) = [unsub_request s u um sid] /\
+  (unsubw s = [] -> snd r = [OWire (unsub_request s u um sid)]) /\
+  alookup subid_eqb sid (subs (m (fst r))) = None /\
+  queue (fst r) = [] /\ waiting (fst r) = [].
+Proof. exact refused_push_unsubscribes_once. Qed.
+Print Assumptions C05_lag_unsubscribes_exactly_once.
+
+(* explicit unsubscribe of an established subscription (its stream handle sh is its channel): exactly one unsubscribe
+   frame for sid, and the caller's future completes in the same step *)
+Theorem C05_explicit_unsubscribe_completes : forall s h sh sid rid u um,
+  ungated s -> (0 < qcap s)%nat -> queue s = [] -> waiting s = [] ->
+  alookup N.eqb sh (subkind s) = Some (inl sid) ->
+  alookup subid_eqb sid (subs (m s)) = Some rid -> req_lookup rid (m s) = Some (KSub u sh um) ->
+  alive s h = true ->
+  let r := fst (step s (FUnsub h sh)) in
+  wires_of (snd r) = [unsub_request s u um sid] /\
+  In (OComplete h CDone) (snd r) /\
+  (unsubw s = [] -> snd r = [OWire (unsub_request s u um sid); OComplete h CDone]) /\
+  alookup subid_eqb sid (subs (m (fst r))) = None /\
+  queue (fst r) = [] /\ waiting (fst r) = [].
+Proof. exact explicit_unsubscribe_completes. Qed.
+Print Assumptions C05_explicit_unsubscribe_completes.
+
+(* dropping the stream while the queue has room: exactly one unsubscribe frame, in the same step *)
+Theorem C05_drop_unsubscribes_exactly_once : forall s sh sid c rid u ch um,
+  ungated s -> (0 < qcap s)%nat -> queue s = [] -> waiting s = [] ->
+  alookup N.eqb sh (subkind s) = Some (inl sid) -> chan_of s sh = Some c ->
+  alookup subid_eqb sid (subs (m s)) = Some rid -> req_lookup rid (m s) = Some (KSub u ch um) ->
+  let r := fst (step s (FDrop sh)) in
+  wires_of (snd r) = [unsub_request s u um sid] /\
+  (unsubw s = [] -> snd r = [OWire (unsub_request s u um sid)]) /\
+  alookup subid_eqb sid (subs (m (fst r))) = None /\
+  queue (fst r) = [] /\ waiting (fst r) = [].
+Proof. exact drop_unsubscribes_once. Qed.
+Print Assumptions C05_drop_unsubscribes_exactly_once.
 
 (* ------------------------------------------------------------------ non-vacuity: whole histories through `run` *)
 Definition sub1 : ev := FSubscribe 1 b#"sub" b#"unsub" None.
